@@ -99,7 +99,7 @@ def deep_models(rep, prop):
             raise MachineryError(f"deviation switch {d}: TLC did not find {want} (found {r.violated or r.error})")
         rep.extra.setdefault("defect_switches_found", []).append(f"{d}:{want}")
     quick, _ = MODEL[prop]
-    src = (SPEC / f"MC_Exec_{quick[0]}.cfg").read_text().replace("MaxTick = 3", "MaxTick = 12").replace("MaxTick = 4", "MaxTick = 12")
+    src = (SPEC / f"MC_Exec_{quick[0]}.cfg").read_text().replace("MaxTick = 3", "MaxTick = 12").replace("MaxTick = 4", "MaxTick = 12").replace("Admissible = FALSE", "Admissible = TRUE")
     f = common.scratch() / "MC_Exec_sim.cfg"
     f.write_text(src)
     r = common.run_tlc("MC_Exec", f, timeout=1500, workers=common.NCPU, extra=["-simulate", "num=3000", "-depth", "30"])
@@ -144,6 +144,9 @@ def run(prop: str, tier: str, extra=None) -> int:
     run_models(rep, prop, tier)
     if extra is not None:
         extra(rep, tier)
+    # spec -> code: behaviours chosen by TLC stepped through the real Executor
+    from . import replay_exec
+    rep.traces += replay_exec.run(rep, prop, tier)
     n = NTRACES[tier]
     traces = driver_exec.gen_traces(n, common.seed() + SEED_OFFSET[prop], mix=MIX[prop])
     mon, owners = validate(traces, rep, prop)
